@@ -339,3 +339,135 @@ Proof.
   destruct (apply_features m t gd kern ls (base_features_default kerning) l) as [l1| | |] eqn:E; cbn [bind] in H; try discriminate.
   eapply apply_features_inv; [|exact H]. eapply apply_features_inv; eassumption.
 Qed.
+
+(* ------------------------------------------------------------------ the scans behind lookup types 1, 2, 3 *)
+Lemma update_at_mid f a x b x' : f x = Ok x' -> update_at f (a ++ x :: b) (len a) = Ok (a ++ x' :: b).
+Proof.
+  intros H. unfold update_at, iget. pose proof (len_nonneg a).
+  rewrite nth_opt_app_r by lia. replace (len a - len a) with 0 by lia. cbn [nth_opt Z.ltb Z.compare Z.to_nat nth_error bind].
+  rewrite H. cbn [bind]. rewrite iset_mid. reflexivity.
+Qed.
+
+Lemma forall_glyphs_match_single m mt gd subs : forall todo done,
+  forall_glyphs_match (length todo) mt gd (fun i l => update_at (singlepos m subs) l i) (done ++ todo) (len done) =
+  (t' <- map_out (singlepos_spec m mt gd subs) todo ;; Ok (done ++ t')).
+Proof.
+  induction todo as [|x todo IH]; intros done; cbn [forall_glyphs_match map_out length]; [cbn [bind]; rewrite !app_nil_r; reflexivity|].
+  pose proof (len_nonneg done). unfold iget. rewrite nth_opt_app_r by lia. replace (len done - len done) with 0 by lia.
+  cbn [nth_opt Z.ltb Z.compare Z.to_nat nth_error bind]. unfold singlepos_spec at 1.
+  assert (Hd : len (done ++ [x]) = len done + 1) by (rewrite len_app; unfold len; cbn [length]; lia).
+  destruct (match_glyph mt gd (i_id x)).
+  - destruct (singlepos m subs x) as [x'| | |] eqn:Es; cbn [bind].
+    + rewrite (update_at_mid _ done x todo x' Es). cbn [bind].
+      replace (done ++ x' :: todo) with ((done ++ [x']) ++ todo) by (rewrite <- app_assoc; reflexivity).
+      replace (len done + 1) with (len (done ++ [x'])) by (rewrite len_app; unfold len; cbn [length]; lia).
+      rewrite IH. destruct (map_out _ todo); cbn [bind]; try reflexivity. rewrite <- app_assoc. reflexivity.
+    + unfold update_at, iget. rewrite nth_opt_app_r by lia. replace (len done - len done) with 0 by lia.
+      cbn [nth_opt Z.ltb Z.compare Z.to_nat nth_error bind]. rewrite Es. reflexivity.
+    + unfold update_at, iget. rewrite nth_opt_app_r by lia. replace (len done - len done) with 0 by lia.
+      cbn [nth_opt Z.ltb Z.compare Z.to_nat nth_error bind]. rewrite Es. reflexivity.
+    + unfold update_at, iget. rewrite nth_opt_app_r by lia. replace (len done - len done) with 0 by lia.
+      cbn [nth_opt Z.ltb Z.compare Z.to_nat nth_error bind]. rewrite Es. reflexivity.
+  - cbn [bind].
+    replace (done ++ x :: todo) with ((done ++ [x]) ++ todo) by (rewrite <- app_assoc; reflexivity).
+    rewrite <- Hd. rewrite IH. destruct (map_out _ todo); cbn [bind]; try reflexivity. rewrite <- app_assoc. reflexivity.
+Qed.
+
+(* lookup type 1 over the run: pointwise, skipped glyphs untouched *)
+Theorem singlepos_lookup_spec : forall m lks gd li l lk subs,
+  get_plookup lks li = Ok lk -> pl_body lk = LSinglePos subs ->
+  gpos_apply_lookup m (Some lks) gd li l =
+  map_out (singlepos_spec m (from_lookup_flag (pl_flag lk) (pl_mfs lk)) gd subs) l.
+Proof.
+  intros m lks gd li l lk subs Hlk Hb. unfold gpos_apply_lookup. rewrite Hlk. cbn [bind]. rewrite Hb.
+  pose proof (forall_glyphs_match_single m (from_lookup_flag (pl_flag lk) (pl_mfs lk)) gd subs l []) as H.
+  cbn [app] in H. rewrite len_nil in H. rewrite H. destruct (map_out _ l); reflexivity.
+Qed.
+
+(* unskipped positions and find_next *)
+Lemma find_first_from_unskipped mt gd : forall l k,
+  find_first_from mt gd l k = match unskipped_positions mt gd l k with [] => None | p :: _ => Some p end.
+Proof.
+  induction l as [|g l IH]; intros k; cbn [find_first_from unskipped_positions]; [reflexivity|].
+  destruct (match_glyph mt gd g); [reflexivity|apply IH].
+Qed.
+
+Lemma unskipped_positions_tail mt gd : forall l k p,
+  find_first_from mt gd l k = Some p ->
+  unskipped_positions mt gd l k = p :: unskipped_positions mt gd (drop (p - k + 1) l) (p + 1).
+Proof.
+  induction l as [|g l IH]; intros k p H; cbn [find_first_from] in H; [discriminate|].
+  cbn [unskipped_positions]. destruct (match_glyph mt gd g) eqn:E.
+  - inversion H; subst. replace (p - p + 1) with 1 by lia. reflexivity.
+  - pose proof (find_first_from_ge mt gd l (k + 1) p H). rewrite (IH (k + 1) p H). f_equal.
+    replace (p - k + 1) with (1 + (p - (k + 1) + 1)) by lia.
+    unfold drop. replace (Z.to_nat (1 + (p - (k + 1) + 1))) with (S (Z.to_nat (p - (k + 1) + 1))) by lia. reflexivity.
+Qed.
+
+Lemma pairs_loop_spec mt gd (f : Z -> Z -> action) :
+  (forall i1 i2 l l', f i1 i2 l = Ok l' -> iids l' = iids l) ->
+  forall fuel l i1, 0 <= i1 -> (length (unskipped_positions mt gd (drop (i1 + 1) (iids l)) (i1 + 1)) < fuel)%nat ->
+  pairs_loop fuel mt gd f l i1 =
+  fold_pairs f (adjacent (i1 :: unskipped_positions mt gd (drop (i1 + 1) (iids l)) (i1 + 1))) l.
+Proof.
+  intros Hid. induction fuel as [|fuel IH]; intros l i1 Hi Hf; [lia|]. cbn [pairs_loop].
+  unfold find_next. rewrite find_first_from_unskipped.
+  destruct (unskipped_positions mt gd (drop (i1 + 1) (iids l)) (i1 + 1)) as [|p rest] eqn:Eu; [reflexivity|].
+  change (adjacent (i1 :: p :: rest)) with ((i1, p) :: adjacent (p :: rest)). cbn [fold_pairs].
+  destruct (f i1 p l) as [l1| | |] eqn:Ef; cbn [bind]; try reflexivity.
+  assert (Hp : find_first_from mt gd (drop (i1 + 1) (iids l)) (i1 + 1) = Some p) by (rewrite find_first_from_unskipped, Eu; reflexivity).
+  pose proof (find_first_from_ge _ _ _ _ _ Hp) as Hge.
+  pose proof (unskipped_positions_tail mt gd _ _ _ Hp) as Ht. rewrite Eu in Ht. injection Ht as Hrest.
+  rewrite drop_drop in Hrest by lia. replace (p - (i1 + 1) + 1 + (i1 + 1)) with (p + 1) in Hrest by lia.
+  rewrite IH; [|lia|rewrite (Hid _ _ _ _ Ef), <- Hrest; cbn [length] in Hf; lia].
+  rewrite (Hid _ _ _ _ Ef), <- Hrest. reflexivity.
+Qed.
+
+Lemma update_at_iids (f : info -> outcome info) l i l' :
+  (forall x x', f x = Ok x' -> i_id x' = i_id x) -> update_at f l i = Ok l' -> iids l' = iids l.
+Proof.
+  intros Hf H. unfold update_at in H.
+  destruct (iget l i) as [x| | |] eqn:Ex; cbn [bind] in H; try discriminate. apply iget_ok in Ex.
+  destruct (f x) as [x'| | |] eqn:Ef; cbn [bind] in H; try discriminate. inversion H; subst.
+  destruct (iset_spec l i x' x Ex) as (_ & _ & _ & L4). apply L4. eapply Hf; eassumption.
+Qed.
+
+Lemma pairpos_iids m subs i1 i2 l l' : pairpos m subs i1 i2 l = Ok l' -> iids l' = iids l.
+Proof.
+  intros H. unfold pairpos in H.
+  destruct (iget l i1) as [x1| | |]; cbn [bind] in H; try discriminate.
+  destruct (iget l i2) as [x2| | |]; cbn [bind] in H; try discriminate.
+  destruct (first_sub _ subs) as [[[a1 a2]|]| | |]; cbn [bind] in H; try discriminate; [|inversion H; reflexivity].
+  assert (K : forall a x x', adjust_apply m a x = Ok x' -> i_id x' = i_id x) by (intros a x x' E; apply (adjust_apply_keeps m a x x' E)).
+  assert (H1 : forall l1, (match a1 with Some a => update_at (adjust_apply m a) l i1 | None => Ok l end) = Ok l1 -> iids l1 = iids l).
+  { intros l1 E. destruct a1 as [a|]; [|inversion E; reflexivity]. eapply update_at_iids; [apply K|exact E]. }
+  destruct (match a1 with Some a => update_at (adjust_apply m a) l i1 | None => Ok l end) as [l1| | |]; cbn [bind] in H; try discriminate.
+  rewrite <- (H1 l1 eq_refl). destruct a2 as [a|]; [|inversion H; reflexivity].
+  eapply update_at_iids; [apply K|exact H].
+Qed.
+
+(* lookup type 2 over the run: pairpos on every pair of consecutive unskipped glyphs, left to right *)
+Theorem pairpos_lookup_spec : forall m lks gd li l lk subs,
+  get_plookup lks li = Ok lk -> pl_body lk = LPairPos subs ->
+  gpos_apply_lookup m (Some lks) gd li l =
+  fold_pairs (fun i1 i2 l => pairpos m subs i1 i2 l)
+             (adjacent (unskipped_positions (from_lookup_flag (pl_flag lk) (pl_mfs lk)) gd (iids l) 0)) l.
+Proof.
+  intros m lks gd li l lk subs Hlk Hb. unfold gpos_apply_lookup. rewrite Hlk. cbn [bind]. rewrite Hb.
+  set (mt := from_lookup_flag (pl_flag lk) (pl_mfs lk)). unfold forall_glyph_pairs_match, find_first.
+  rewrite find_first_from_unskipped.
+  destruct (unskipped_positions mt gd (iids l) 0) as [|p rest] eqn:Eu; [reflexivity|].
+  assert (Hp : find_first_from mt gd (iids l) 0 = Some p) by (rewrite find_first_from_unskipped, Eu; reflexivity).
+  pose proof (find_first_from_ge _ _ _ _ _ Hp) as Hge.
+  pose proof (unskipped_positions_tail mt gd _ _ _ Hp) as Ht. rewrite Eu in Ht. injection Ht as Hrest.
+  replace (p - 0 + 1) with (p + 1) in Hrest by lia.
+  rewrite pairs_loop_spec.
+  - rewrite <- Hrest. reflexivity.
+  - intros i1 i2 a b Hf. eapply pairpos_iids; exact Hf.
+  - lia.
+  - rewrite <- Hrest.
+    assert (Hlen : forall ids k, (length (unskipped_positions mt gd ids k) <= length ids)%nat).
+    { induction ids as [|g ids IHi]; intros k; cbn [unskipped_positions length]; [lia|].
+      destruct (match_glyph mt gd g); cbn [length]; specialize (IHi (k + 1)); lia. }
+    pose proof (Hlen (iids l) 0) as Hl. rewrite Eu in Hl. cbn [length] in Hl. unfold iids in Hl. rewrite map_length in Hl. lia.
+Qed.
